@@ -37,11 +37,12 @@ var (
 	wrCoin      = WorldRun{World: "coin", Quick: b(2, 2, 2), Thorough: b(3, 2, 3), OneEnv: true}
 	wrPool      = WorldRun{World: "pool", Quick: b(2, 2, 2), Thorough: b(3, 2, 2), OneEnv: true}
 	wrBook      = WorldRun{World: "book", Quick: b(2, 2, 2), Thorough: b(3, 2, 3), OneEnv: true}
+	wrBookTiny  = WorldRun{World: "booktiny", Quick: b(3, 3, 2), Thorough: b(4, 3, 2), OneEnv: true}
 	wrStake     = WorldRun{World: "stake", Quick: b(2, 2, 2), Thorough: b(3, 2, 2), OneEnv: true}
 )
 
 // txWorlds are the worlds over which the generic per-transaction monitors run.
-func txWorlds() []WorldRun { return []WorldRun{wrPay, wrCoin, wrPool, wrBook, wrStake} }
+func txWorlds() []WorldRun { return []WorldRun{wrPay, wrCoin, wrPool, wrBook, wrStake, wrBookTiny} }
 
 func init() {
 	regExplore("C01", txWorlds(), one(monitors.Conservation{}))
